@@ -17,7 +17,7 @@ from pbt.harness import viol
 
 PROPERTY_ID = "C20"
 RULE = ("case = either a VTI history (domain with nnodes % nel != 0, 1..4 arrays: element/node data with 1..3 "
-        "components, 1-D or block (k, c*n), float64/float32/int64, scale, optional origin via write_to_vti, overwrite "
+        "components, 1-D or block (k, c*n) / (c*n, k), float64/float32/int64, scale, optional origin via write_to_vti, overwrite "
         "on/off, 1..5 iterations with changing data, nested output directory, file name with/without .vti) or a "
         "ScalarToFile history (1..4 signals: python/numpy scalars, 0-d arrays, vectors of length 1..6, small matrices; "
         "format, separator / .csv, 1..6 calls with changing values, optional stale file). Non-trivial = VTI: cell and "
@@ -27,7 +27,7 @@ ASSUMPTIONS = [
     "only arrays whose classification by size is unambiguous: total size a multiple of exactly one of nel / nnodes, "
     "block count k not a multiple of nel (nnodes); ambiguous arrays drawn by the generator are dropped and counted "
     "under the label ambiguous_excluded",
-    "block vectors have the documented orientation (k, c*n); nodal data with 2 components only in 2-D domains",
+    "block vectors in both orientations the code accepts: rows (k, c*n) and columns (c*n, k); nodal data with 2 components only in 2-D domains",
     "signal tags are distinct plain words without XML-special or separator characters, none a prefix of another",
     "matrices are logged only with separators that do not occur in their column names (tab, ';'): the header of a "
     "matrix column is 'tag[i, j]', which collides with ',' and ' '; the docstring only promises vectors",
@@ -78,6 +78,7 @@ def strategy(tier):
     arr = st.fixed_dictionaries({
         "kind": st.sampled_from(["elem", "node"]), "ncomp": st.sampled_from([1, 1, 2, 2, 3]),
         "nblock": st.sampled_from([0, 0, 0, 1, 2, 3, 5, 11]), "dtype": st.sampled_from(["f8", "f8", "f4", "i8"]),
+        "cols": st.sampled_from([False, False, True]),   # block vectors stored as columns: shape (c*n, k)
         "seed": seed})
 
     @st.composite
@@ -121,10 +122,14 @@ def _vti_data(a, n_per, it):
     k, c = a["nblock"], a["ncomp"]
     shape = (c * n_per,) if k == 0 else (k, c * n_per)
     if a["dtype"] == "i8":
-        return rng.integers(-1000, 1000, size=shape).astype(np.int64)
-    x = rng.standard_normal(shape) * 10.0 ** rng.integers(-3, 4)
-    x.reshape(-1)[rng.integers(0, x.size)] = 0.0
-    return x.astype(np.float32) if a["dtype"] == "f4" else x
+        x = rng.integers(-1000, 1000, size=shape).astype(np.int64)
+    else:
+        x = rng.standard_normal(shape) * 10.0 ** rng.integers(-3, 4)
+        x.reshape(-1)[rng.integers(0, x.size)] = 0.0
+        x = x.astype(np.float32) if a["dtype"] == "f4" else x
+    if k > 0 and a.get("cols"):
+        x = np.ascontiguousarray(x.T)     # same blocks, stored as columns (c*n, k)
+    return x
 
 
 def _unambiguous(a, nel, nn):
@@ -272,7 +277,13 @@ def _check_vti(case, pym, tmp, labels, bad):
         for a, d in zip(specs, data[it]):
             sec = "CellData" if a["kind"] == "elem" else "PointData"
             mine = [x for x in dec["arrays"] if x[1] is not None and x[1].startswith(a["tag"])]
-            rows = [d] if d.ndim == 1 else [d[i] for i in range(d.shape[0])]
+            if d.ndim == 1:
+                rows = [d]
+            elif a.get("cols"):
+                rows = [d[:, i] for i in range(d.shape[1])]
+                labels.append("block_columns")
+            else:
+                rows = [d[i] for i in range(d.shape[0])]
             what = f"{a['kind']} data '{a['tag']}' shape {d.shape} {d.dtype}"
             if len(mine) != len(rows):
                 bad("vti:array_count", f"{what}: {len(mine)} DataArrays named after it ({[m[1] for m in mine]}), "
